@@ -119,6 +119,17 @@ func (e *Exec) evalCallInner(st *State, call *ast.CallExpr) []Term {
 			case types.MethodVal:
 				return e.callFunc(st, call, sel.Obj().(*types.Func), f.X, sel)
 			case types.FieldVal:
+				if e.Fn.C != nil && e.Fn.C.PureFields[f.Sel.Name] && len(e.frames) == 1 {
+					e.eval(st, f.X)
+					var args []Term
+					for _, a := range call.Args {
+						args = append(args, e.eval(st, a))
+					}
+					e.callSiteAsserts(st, call, f.Sel.Name, Term{}, args)
+					e.Assumed["callback "+f.Sel.Name+" (application code) assumed not to modify the node's state or the objects it is handed; its results are unconstrained"] = true
+					e.havocMemo(st)
+					return e.freshResults(st, call, f.Sel.Name)
+				}
 				return e.callUnknown(st, call, "function-typed field "+f.Sel.Name)
 			}
 		}
